@@ -35,7 +35,7 @@ class Raised(Exception):
 
 _BIN = {
     ast.Add: operator.add, ast.Sub: operator.sub, ast.Mult: operator.mul,
-    ast.Mod: operator.mod, ast.FloorDiv: operator.floordiv, ast.BitXor: operator.xor,
+    ast.Mod: operator.mod, ast.FloorDiv: operator.floordiv, ast.BitXor: operator.xor, ast.Div: operator.truediv,
     ast.BitAnd: operator.and_, ast.BitOr: operator.or_, ast.Pow: operator.pow,
 }
 _CMP = {
@@ -399,6 +399,11 @@ class Evaluator:
             return self.getattr(v, e.attr, fi)
         if isinstance(e, ast.Call):
             return self.callexpr(e, env, fi)
+        if isinstance(e, ast.Slice):
+            lo = None if e.lower is None else self.expr(e.lower, env, fi)
+            hi = None if e.upper is None else self.expr(e.upper, env, fi)
+            st = None if e.step is None else self.expr(e.step, env, fi)
+            return slice(lo, hi, st)
         if isinstance(e, ast.Dict):
             out = {}
             for k, v in zip(e.keys, e.values):
@@ -478,6 +483,8 @@ class Evaluator:
                 return ("bound", m, None)
         if hasattr(v, "_attr"):
             return v._attr(attr)
+        if getattr(v, "_abstract", False) and not attr.startswith("_"):
+            return getattr(v, attr)  # abstract value classes of the checker (shaped tokens)
         if isinstance(v, (dict, list, tuple, set, frozenset, str)) and (not attr.startswith("_") or attr in ("__getitem__", "__contains__", "__len__")):
             return getattr(v, attr)
         if isinstance(v, Obj) and attr == "__class__":
